@@ -201,8 +201,17 @@ func TestVerifC14(t *testing.T) {
 	rec = func(prefix []c14Op, d int) {
 		if d == depth {
 			// a connection id is closed at most once and never reused afterwards
+			// and a stream object is registered at most once (the wrapper registers the fresh
+			// stream libp2p hands it; the registry is keyed by that object)
 			closed := map[string]bool{}
+			added := map[int]bool{}
 			for _, op := range prefix {
+				if op.T == "addStream" {
+					if added[op.S] {
+						return
+					}
+					added[op.S] = true
+				}
 				k := fmt.Sprintf("%d/%d", op.C, op.Pid)
 				if op.T == "addPeer" && closed[k] {
 					return
